@@ -45,6 +45,9 @@
 (* join and the forced kill - and the bare `except:` of the finally loop also skips the                   *)
 (* `if child.is_alive(): os.kill()` backstop: a swallowing backend is never killed, the server hangs in   *)
 (* its exit join until the parent's SIGTERM (whose handler finds `children` already cleared).             *)
+(* Mutant switch NoAckWait (TLC must reject it): the backend does not wait for the server's acknowledgement   *)
+(* after reporting its runtime info, so a half-started backend (spawned, not yet in `children`) does not end   *)
+(* when the server's end of the pipe closes: it runs its target and outlives the server.                        *)
 (* Fix switches: CtxTerm (proposed_fixes/C12_context_helper_*.diff): a helper that is SIGTERMed   *)
 (* kills the backends it started (as the server's own handler does) before it dies; DupTerm        *)
 (* (proposed_fixes/C12_rejected_duplicate_*.diff): the context built for a refused duplicate        *)
@@ -52,7 +55,7 @@
 (* ProcessWorker.terminate escalates to SIGKILL when the child survives SIGTERM + join).             *)
 EXTENDS Naturals, Sequences, FiniteSets, TLC, ServerProps
 
-CONSTANTS MaxKids, KidStates, Racers, CtxTerm, DupTerm, ParentKill, ClearFirst, NarrowExcept
+CONSTANTS MaxKids, KidStates, Racers, CtxTerm, DupTerm, ParentKill, ClearFirst, NarrowExcept, NoAckWait
 
 CtxKinds == <<"inctx", "inctx-coop", "inctx-swallow">>      \* one context (helper) per kind, in `contexts` order
 IsCtx(s) == s \in {"inctx", "inctx-coop", "inctx-swallow"}
@@ -182,7 +185,7 @@ ExitJoin == /\ spc = "exiting" /\ ~ExitBlocked
 \* consequences of the server process being gone
 ExitEffects ==
    /\ spc = "dead"
-   /\ \/ /\ rk = "spawned" /\ rk' = "dead" /\ UNCHANGED <<hst, ost>>     \* half-started backend: EOF on its pipe
+   /\ \/ /\ rk = "spawned" /\ ~NoAckWait /\ rk' = "dead" /\ UNCHANGED <<hst, ost>>     \* half-started backend: EOF on its pipe while it waits for the ack
       \/ /\ \E h \in 1..3 : hst[h] = "idle" /\ hst' = [hst EXCEPT ![h] = "clean"]   \* helper: EOF on its args pipe
          /\ UNCHANGED <<rk, ost>>
       \/ /\ \E k \in 1..N : kid[k] = "orphan" /\ ost[k] = "run" /\ ost' = [ost EXCEPT ![k] = "dead"]   \* orphan helper: same
